@@ -64,6 +64,20 @@ def specs_evals(tier, algs=("main", "nonhermitian")):
     return s
 
 
+def specs_corpus(tier):
+    """translation validation of the compiler on the program corpus contracts/dsl_corpus.py (every grammar production in every context)"""
+    from contracts.algorithm_evals import term_names, corpus_programs
+    t = 60000 if tier == "thorough" else 10000
+    s = []
+    for prog in corpus_programs():
+        a = "corpus:" + prog
+        for tn in term_names(a):
+            for off in (False, True):
+                s.append((AE, "unit_eval", {"alg_name": a, "term_name": tn, "have_offdiag": off, "timeout_ms": t}))
+    s.append((AE, "unit_eval", {"alg_name": "corpus:adj_unconditional", "term_name": "C", "have_offdiag": True, "timeout_ms": t, "canary": True}))
+    return s
+
+
 def specs_wiring(tier, algs=("main", "nonhermitian")):
     t = 60000 if tier == "thorough" else 10000
     cfgs = [(2, 1, False), (3, 2, True), (1, 1, False)]
@@ -129,4 +143,6 @@ def specs_nof(tier):
         s.append((NF_, "unit_neg", {"layout": lay, "timeout_ms": t}))
         s.append((NF_, "unit_add", {"layout": lay, "timeout_ms": t}))
     s.append((NF_, "unit_add", {"layout": ["boson"], "timeout_ms": t, "canary": True}))
+    for lay in layouts_small[:3]:
+        s.append((NF_, "unit_pow", {"layout": lay, "timeout_ms": t}))
     return s
